@@ -88,6 +88,10 @@ func (g *Gen) frameEnv(f *Frame, st *State, results []Term) *Env {
 		if d.addr {
 			if l, ok := f.locs[d.v]; ok {
 				env.vars[name] = Arg{loc: l, t: Term{T: ptrElem(d.v.Type())}}
+			} else if t, ok := f.vals[d.v]; ok && isStruct(ptrElem(d.v.Type())) {
+				// an addressable struct-typed local: the name denotes the variable through its address, so that
+				// name.field reads the field's current value
+				env.vars[name] = Arg{t: t}
 			}
 		} else if t, ok := f.vals[d.v]; ok {
 			env.vars[name] = Arg{t: t}
@@ -110,9 +114,13 @@ func (g *Gen) frameEnv(f *Frame, st *State, results []Term) *Env {
 			env.vars[name] = Arg{t: t}
 		}
 	}
+	// a source name used inside this loop that denotes one value defined outside it (e.g. assigned earlier in the
+	// enclosing loop's body) denotes that value; only this loop's own loop-carried variables take precedence
 	for name, v := range f.loopVals {
-		if _, isLoopVar := f.loopNames[name]; isLoopVar {
-			continue
+		if phi, isLoopVar := f.loopNames[name]; isLoopVar {
+			if op, isOuter := f.loopOuter[name]; !isOuter || op != phi {
+				continue
+			}
 		}
 		if t, ok := f.vals[v]; ok {
 			env.vars[name] = Arg{t: t}
@@ -1348,13 +1356,20 @@ func (g *Gen) debugNames(fn *ssa.Function) map[string]dbgName {
 				continue
 			}
 			n := id.Name
+			x, isAddr := dr.X, dr.IsAddr
+			if ld, ok := x.(*ssa.UnOp); ok && !isAddr && ld.Op == token.MUL {
+				if a, ok := ld.X.(*ssa.Alloc); ok {
+					// a read of an addressable local: the name denotes the variable (its cell), not this one value
+					x, isAddr = a, true
+				}
+			}
 			if prev, ok := m[n]; ok {
-				if prev.v != dr.X || prev.addr != dr.IsAddr || objOf[n] != dr.Object() {
+				if prev.v != x || prev.addr != isAddr || objOf[n] != dr.Object() {
 					bad[n] = true
 				}
 				continue
 			}
-			m[n] = dbgName{dr.X, dr.IsAddr}
+			m[n] = dbgName{x, isAddr}
 			objOf[n] = dr.Object()
 		}
 	}
